@@ -175,6 +175,74 @@ where
     })
 }
 
+use super::xform::Rot;
+
+fn dec_oracle<P, R>(op: &str) -> Option<OpFn>
+where
+    P: EuclideanSpace<Scalar = X> + Rd + Fl + Copy + 'static,
+    P::Diff: Rd + Fl + VectorSpace<Scalar = X> + Copy,
+    R: Rot + Rotation<Space = P> + 'static,
+{
+    fn rdd<P: EuclideanSpace<Scalar = X>, R: Rot>(a: &mut Args) -> Decomposed<P::Diff, R> where P::Diff: Rd {
+        let scale = a.x();
+        let rot = R::rd(a);
+        let disp = P::Diff::rd(a);
+        Decomposed { scale, rot, disp }
+    }
+    fn fld<V: VectorSpace<Scalar = X> + Fl, R: Rot>(d: &Decomposed<V, R>) -> Vec<X> {
+        let mut o = vec![];
+        d.scale.fl(&mut o);
+        d.rot.flr(&mut o);
+        d.disp.fl(&mut o);
+        o.into_iter().map(|v| match v { Val::S(x) => x, Val::B(_) => X::int(0) }).collect()
+    }
+    Some(match op {
+        // s, t (rotations must be valid: unit quaternion / its matrix / an angle), p, v
+        "laws" => |a| {
+            let (s, t, p, v) = (rdd::<P, R>(a), rdd::<P, R>(a), P::rd(a), P::Diff::rd(a));
+            let c = s.concat(&t);
+            let mut r = diff(c.transform_point(p), s.transform_point(t.transform_point(p)));
+            r.extend(diff(c.transform_vector(v), s.transform_vector(t.transform_vector(v))));
+            let m = s * t;
+            r.extend(fld(&m).into_iter().zip(fld(&c)).map(|(x, y)| x - y));
+            let mut cs = s; cs.concat_self(&t);
+            r.extend(fld(&cs).into_iter().zip(fld(&c)).map(|(x, y)| x - y));
+            let one = Decomposed::<P::Diff, R>::one();
+            r.extend(diff(one.transform_point(p), p));
+            r.extend(diff(one.transform_vector(v), v));
+            // transform_vector ignores displacement
+            let mut t2 = t; t2.disp = t.disp + v;
+            r.extend(diff(t2.transform_vector(v), t.transform_vector(v)));
+            ok(r)
+        },
+        "inverse" => |a| {
+            let (t, p, v) = (rdd::<P, R>(a), P::rd(a), P::Diff::rd(a));
+            let zero_scale = is0(&[t.scale]);
+            match t.inverse_transform() {
+                None => {
+                    // allowed only for negligible scale: |scale| <= 1e-6
+                    let tiny = t.scale.val().abs().cmp(&crate::big::Rat::from_frac(1, 1000000)) != std::cmp::Ordering::Greater;
+                    let mut r = vec![if tiny { X::int(0) } else { X::int(1) }];
+                    r.push(if t.inverse_transform_vector(v).is_none() { X::int(0) } else { X::int(1) });
+                    ok(r)
+                }
+                Some(i) => {
+                    if zero_scale { return ok(X::int(1)); }
+                    let mut r = diff(i.transform_point(t.transform_point(p)), p);
+                    r.extend(diff(i.transform_vector(t.transform_vector(v)), v));
+                    r.extend(diff(t.transform_point(i.transform_point(p)), p));
+                    match t.inverse_transform_vector(v) {
+                        Some(w) => r.extend(diff(w, i.transform_vector(v))),
+                        None => r.push(X::int(1)),
+                    }
+                    ok(r)
+                }
+            }
+        },
+        _ => return None,
+    })
+}
+
 pub fn lookup(name: &str) -> Option<OpFn> {
     if let Some((ty, op)) = name.strip_prefix("o.").and_then(|r| r.split_once('.')) {
         let f = match ty {
@@ -184,6 +252,9 @@ pub fn lookup(name: &str) -> Option<OpFn> {
             "p1" => point_generic::<Point1<X>>(op),
             "p2" => point_generic::<Point2<X>>(op),
             "p3" => point_generic::<Point3<X>>(op),
+            "dq" => dec_oracle::<Point3<X>, Quaternion<X>>(op),
+            "db3" => dec_oracle::<Point3<X>, Basis3<X>>(op),
+            "db2" => dec_oracle::<Point2<X>, Basis2<X>>(op),
             _ => None,
         };
         if f.is_some() { return f; }
@@ -261,6 +332,82 @@ pub fn lookup(name: &str) -> Option<OpFn> {
             let mut out = if is0(&d) { d } else { diff(r, -q) };
             out.extend(diff(rb, r));
             ok(out)
+        },
+        // ---------------------------------------------------------------- C08 conversions / matrix transforms
+        "o.dq.matrix" => |a| {
+            let rd = |a: &mut Args| { let (scale, rot, disp) = (a.x(), a.q(), a.v3()); Decomposed { scale, rot, disp } };
+            let (s, t, p, v) = (rd(a), rd(a), a.p3(), a.v3());
+            let (ms, mt) = (Matrix4::from(s), Matrix4::from(t));
+            let mut r = diff(mt.transform_point(p), t.transform_point(p));
+            r.extend(diff(mt.transform_vector(v), t.transform_vector(v)));
+            r.extend(diff(Matrix4::from(s.concat(&t)), ms * mt));
+            match (t.inverse_transform(), mt.inverse_transform()) {
+                (Some(i), Some(mi)) => r.extend(diff(Matrix4::from(i), mi)),
+                (None, _) => {}
+                _ => r.push(X::int(1)),
+            }
+            let sb = Decomposed { scale: s.scale, rot: Basis3::from(s.rot), disp: s.disp };
+            let tb = Decomposed { scale: t.scale, rot: Basis3::from(t.rot), disp: t.disp };
+            r.extend(diff(Matrix4::from(sb), ms));
+            r.extend(diff(Matrix4::from(sb.concat(&tb)), ms * mt));
+            r.extend(diff(tb.transform_point(p), t.transform_point(p)));
+            ok(r)
+        },
+        "o.db2.matrix" => |a| {
+            let rd = |a: &mut Args| { let (scale, t, disp) = (a.x(), a.rad(), a.v2()); let rot: Basis2<X> = Rotation2::from_angle(t); Decomposed { scale, rot, disp } };
+            let (s, t, p, v) = (rd(a), rd(a), a.p2(), a.v2());
+            type T3 = Matrix3<X>;
+            let (ms, mt) = (Matrix3::from(s), Matrix3::from(t));
+            let mut r = diff(<T3 as Transform<Point2<X>>>::transform_point(&mt, p), t.transform_point(p));
+            r.extend(diff(<T3 as Transform<Point2<X>>>::transform_vector(&mt, v), t.transform_vector(v)));
+            r.extend(diff(Matrix3::from(s.concat(&t)), ms * mt));
+            match (t.inverse_transform(), <T3 as Transform<Point2<X>>>::inverse_transform(&mt)) {
+                (Some(i), Some(mi)) => r.extend(diff(Matrix3::from(i), mi)),
+                (None, _) => {}
+                _ => r.push(X::int(1)),
+            }
+            ok(r)
+        },
+        "o.m4.transform" => |a| {
+            // a, b given as 3x4 affine parts (12 numbers each: three columns + translation)
+            let aff = |a: &mut Args| {
+                let (c0, c1, c2, t) = (a.v3(), a.v3(), a.v3(), a.v3());
+                Matrix4::from_cols(c0.extend(X::int(0)), c1.extend(X::int(0)), c2.extend(X::int(0)), t.extend(X::int(1)))
+            };
+            let (m, n, p, v) = (aff(a), aff(a), a.p3(), a.v3());
+            let c = m.concat(&n);
+            let mut r = diff(c.transform_point(p), m.transform_point(n.transform_point(p)));
+            r.extend(diff(c.transform_vector(v), m.transform_vector(n.transform_vector(v))));
+            r.extend(diff(c, m * n));
+            let one = Matrix4::<X>::one();
+            r.extend(diff(one.transform_point(p), p));
+            r.extend(diff(one.transform_vector(v), v));
+            match (m.inverse_transform(), m.invert()) {
+                (Some(i), Some(j)) => {
+                    r.extend(diff(i, j));
+                    r.extend(diff(i.transform_point(m.transform_point(p)), p));
+                    r.extend(diff(i.transform_vector(m.transform_vector(v)), v));
+                    match m.inverse_transform_vector(v) { Some(w) => r.extend(diff(w, i.transform_vector(v))), None => r.push(X::int(1)) }
+                }
+                (None, None) => r.push(m.determinant()),
+                _ => r.push(X::int(1)),
+            }
+            ok(r)
+        },
+        "o.m3.transform" => |a| {
+            let (m, n, p, v) = (a.m3(), a.m3(), a.p3(), a.v3());
+            type T3 = Matrix3<X>;
+            let c = <T3 as Transform<Point3<X>>>::concat(&m, &n);
+            let tp = |m: &T3, p| <T3 as Transform<Point3<X>>>::transform_point(m, p);
+            let tv = |m: &T3, v| <T3 as Transform<Point3<X>>>::transform_vector(m, v);
+            let mut r = diff(tp(&c, p), tp(&m, tp(&n, p)));
+            r.extend(diff(tv(&c, v), tv(&m, tv(&n, v))));
+            match (<T3 as Transform<Point3<X>>>::inverse_transform(&m), m.invert()) {
+                (Some(i), Some(j)) => { r.extend(diff(i, j)); r.extend(diff(tp(&i, tp(&m, p)), p)); }
+                (None, None) => r.push(m.determinant()),
+                _ => r.push(X::int(1)),
+            }
+            ok(r)
         },
         // ---------------------------------------------------------------- C01 constructors
         "o.m4.constructors" => |a| {
@@ -354,7 +501,9 @@ impl PerpLike for Vector3<X> {
 pub fn names() -> Vec<String> {
     let mut v: Vec<String> = ["o.v3.lagrange", "o.v3.cross_cross", "o.v3.cross_orth", "o.v.dot_bilinear",
         "o.m4.constructors", "o.m3.constructors", "o.m.embed", "o.p3.homogeneous",
-        "o.q.algebra", "o.q.invert", "o.q.rotate", "o.q.compose", "o.q.same_rotation", "o.q.roundtrip"]
+        "o.q.algebra", "o.q.invert", "o.q.rotate", "o.q.compose", "o.q.same_rotation", "o.q.roundtrip",
+        "o.dq.matrix", "o.db2.matrix", "o.m4.transform", "o.m3.transform",
+        "o.dq.laws", "o.dq.inverse", "o.db3.laws", "o.db3.inverse", "o.db2.laws", "o.db2.inverse"]
         .iter()
         .map(|s| s.to_string())
         .collect();
